@@ -51,7 +51,7 @@ def main():
     results, lock = {}, threading.Lock()
 
     def worker(k):
-        wt = "/tmp/vw/regress-%d" % k
+        wt = "/tmp/vw/regress%s-%d" % (os.environ.get("REGRESS_TAG", ""), k)
         sh("git -C %s worktree remove --force %s" % (ROOT, wt))
         r = sh("git -C %s worktree add -q --detach %s HEAD" % (ROOT, wt))
         if r.returncode != 0:
@@ -67,7 +67,7 @@ def main():
                 except queue.Empty:
                     break
                 pid = sid.split("-")[0]
-                repo = "/tmp/regrepo-%d" % k
+                repo = "/tmp/regrepo%s-%d" % (os.environ.get("REGRESS_TAG", ""), k)
                 sh("git -C /repo worktree remove --force %s" % repo)
                 sh("git -C /repo worktree add -q --detach %s HEAD" % repo)
                 rec = {"property": pid}
